@@ -9,6 +9,18 @@ import (
 // (e.g. "extend", "type"), and whether the line is such a declaration. The name ends at the first
 // whitespace or at the punctuation that may follow it (':' for relations, '(' for conditions).
 func declarationName(line string, keywords ...string) (string, bool) {
+	// a carriage return on its own is a line break for the parser, but no new line for positions:
+	// the declaration may stand behind one (e.g. after a comment that the carriage return ends)
+	if strings.Contains(line, "\r") {
+		for _, segment := range strings.Split(line, "\r") {
+			if name, ok := declarationName(segment, keywords...); ok {
+				return name, true
+			}
+		}
+
+		return "", false
+	}
+
 	fields := strings.Fields(line)
 	if len(fields) <= len(keywords) {
 		return "", false
@@ -32,6 +44,10 @@ func declarationName(line string, keywords ...string) (string, bool) {
 // only a comment may follow. The continuation line of a type restriction spread over several lines
 // can begin with the same words ("type with cond]" restricts to a type that is called type).
 func isTypeDeclaration(line string) bool {
+	if strings.Contains(line, "\r") {
+		return slices.ContainsFunc(strings.Split(line, "\r"), isTypeDeclaration)
+	}
+
 	fields := strings.Fields(line)
 	if len(fields) > 0 && fields[0] == "extend" {
 		fields = fields[1:]
